@@ -294,6 +294,15 @@ func bigModule(rng *rand.Rand, n int) string {
 		fmt.Fprintf(&sb, "@g%d = global %%t%d* null, comdat($c%d), !foo !%d\n", i, (i*3)%n, (i+2)%n, (i*5)%n)
 	}
 	for _, i := range rng.Perm(n) {
+		fmt.Fprintf(&sb, "@s%d = addrspace(%d) global i32 %d\n", i, 1+i%3, i)
+	}
+	for _, i := range rng.Perm(n) {
+		as := 1 + ((i+1)%n)%3
+		fmt.Fprintf(&sb, "@u%d = global i1 icmp eq (i32 addrspace(%d)* @s%d, i32 addrspace(%d)* null)\n", i, as, (i+1)%n, as)
+		fmt.Fprintf(&sb, "@v%d = global i32 addrspace(%d)* getelementptr (i32, i32 addrspace(%d)* @s%d, i64 1)\n", i, as, as, (i+1)%n)
+		fmt.Fprintf(&sb, "@w%d = thread_local(initialexec) global i8* bitcast (i32 addrspace(%d)** @v%d to i8*)\n", i, 1+((i+2)%n)%3, (i+1)%n)
+	}
+	for _, i := range rng.Perm(n) {
 		fmt.Fprintf(&sb, "@a%d = alias i8, bitcast (%%t%d** @g%d to i8*)\n", i, (i*3+3)%n*0+((i+1)*3)%n, (i+1)%n)
 	}
 	for _, i := range rng.Perm(n) {
@@ -394,6 +403,12 @@ func Run(tier, replay string) {
 	}
 
 	single0 := singletons()
+	type heldModule struct {
+		input int
+		via   string
+		m     *ir.Module
+	}
+	var held []heldModule
 
 	// 1. repetitions in this process with hooks on; entry points
 	var rows []traceRow
@@ -468,6 +483,29 @@ func Run(tier, replay string) {
 					fail("entry-point "+ep, o)
 				}
 			}
+		}
+		// keep modules obtained through the reader and byte-slice entry points; they are printed
+		// only after everything else has been parsed (a module must not depend on the caller's
+		// buffer or on later parses)
+		if i%3 == 0 || replay != "" {
+			if m, err := asm.Parse("in.ll", strings.NewReader(in.text)); err == nil {
+				held = append(held, heldModule{i, "Parse(reader)", m})
+			}
+			buf := []byte(in.text)
+			if m, err := asm.ParseBytes("in.ll", buf); err == nil {
+				held = append(held, heldModule{i, "ParseBytes", m})
+			}
+			for k := range buf {
+				buf[k] = '#' // the caller reuses its buffer
+			}
+		}
+	}
+	for _, h := range held {
+		var text string
+		msg, p := mbt.Guard(func() { text = h.m.String() })
+		if got := sha(text); p || (base[h.input].Status == "ok" && got != base[h.input].Text) {
+			rep.Fail(mbt.Failure{Signature: "C12|held-module-changed|" + h.via,
+				What: fmt.Sprintf("a module obtained through %s prints differently after other inputs were parsed / the caller reused its buffer (panic=%q); input %s", h.via, msg, inputs[h.input].name), Case: map[string]string{"src": inputs[h.input].text}})
 		}
 	}
 	// 2. after unrelated activity: parse everything in reverse order, then re-check
